@@ -121,6 +121,83 @@ example : ∃ (Q : Quant Unit) (s : DocState) (c : Composite Unit),
    { color := [[()], [()], [()]], alpha := [()] },
    by intro d x; simp, rfl, by unfold Supported; decide, by decide, by unfold Composite.WF; decide⟩
 
+/-- **The flag survives a save.** `save()` never resets `_updated_layers`, and it leaves the header
+and the compression method alone. -/
+theorem save_keeps_dirty (Q : Quant α) (s s' : DocState) (c : Composite α) (h : save Q s c = .ok s') :
+    s'.dirty = s.dirty ∧ s'.info.header = s.info.header ∧ s'.imageData.comp = s.imageData.comp :=
+  save_keeps Q s s' c h
+
+/-- **second_save_still_regenerates.** A supported document whose structure was edited is saved
+(the composite of its layers being `c1`), then any operations are applied — attribute edits,
+read-only calls, further structural edits — and it is saved again, the composite of its layers now
+being `c2`: both saves succeed, and the second file's merged image is the regeneration from `c2`
+(not the image of the first save): `header.channels` planes that `get_data` returns again. The
+document stays "edited" for every save after that. -/
+theorem second_save_still_regenerates (Q : Quant α) (hQ : Q.Lawful) (s : DocState) (c1 c2 : Composite α)
+    (ops : List Op) (hd : s.dirty = true) (hs : Supported s.info.header)
+    (hch : s.info.header.cmode.expected ≤ s.info.header.channels)
+    (hc1 : c1.WF s.info.header) (hc2 : c2.WF s.info.header) :
+    ∃ s1 s1' planes s2, save Q s c1 = .ok s1 ∧ runEvents Q s1 (ops.map Event.op) = .ok s1' ∧
+      regenerate Q s1' c2 = .ok (some planes) ∧
+      runEvents Q s (Event.save c1 :: (ops.map Event.op ++ [Event.save c2])) = .ok s2 ∧
+      s2.imageData = setData s.imageData.comp planes s.info.header ∧
+      planes.length = s.info.header.channels ∧
+      getData s2.imageData s2.info.header = .ok planes ∧
+      s2.info.hasPreview = true ∧ s2.dirty = true := by
+  obtain ⟨_, s1, h1, _⟩ := merged_plane_count Q hQ s c1 hd hs hch hc1
+  obtain ⟨k1, k2, k3⟩ := save_keeps Q s s1 c1 h1
+  obtain ⟨hdep, hb⟩ := hs
+  have hd' : dirtyAfter s1.dirty ops = true := by simp [dirtyAfter, k1, hd]
+  have hrun := runEvents_ops Q s1 ops
+  rw [hd'] at hrun
+  -- the document as the second save sees it: `{ s1 with dirty := true }`
+  obtain ⟨planes, hreg, hpl, hpall⟩ := regenerate_ok Q hQ { s1 with dirty := true } c2
+    (by show s1.info.header.depth = 8 ∨ _; rw [k2]; exact hdep)
+    (by show s1.info.header.cmode ≠ _; rw [k2]; exact hb)
+    (by show s1.info.header.cmode.expected ≤ s1.info.header.channels; rw [k2]; exact hch)
+    (by show c2.WF s1.info.header; rw [k2]; exact hc2)
+  have hpl' : planes.length = s.info.header.channels := by rw [← k2]; exact hpl
+  have hpall' : ∀ p ∈ planes, p.length = planeBytes s.info.header := by rw [← k2]; exact hpall
+  have hpos : 0 < s.info.header.channels := by
+    have : 0 < s.info.header.cmode.expected := by cases s.info.header.cmode <;> simp [CMode.expected]
+    omega
+  have hsave2 := save_eq_regenerate Q { s1 with dirty := true } c2
+  simp only [hreg, Bool.not_true, Bool.false_eq_true, if_false] at hsave2
+  refine ⟨s1, _, planes,
+    { info := { s1.info with versionInfo := s1.info.versionInfo.map fun _ => true },
+      imageData := setData s1.imageData.comp planes s1.info.header, dirty := true },
+    h1, hrun, hreg, ?_, ?_, hpl', ?_, ?_, rfl⟩
+  · simp only [runEvents, step, h1]
+    rw [runEvents_append Q s1 _ _ _ hrun]
+    simp only [runEvents, step, hsave2]
+  · simp only [k2, k3]
+  · simp only [k2]
+    exact getData_setData _ _ _ hpl' hpall' hpos
+  · cases hv : s1.info.versionInfo <;> simp [Meta.hasPreview, hv]
+
+/-- the hypotheses are satisfiable (the document of the example above, two composites) -/
+example : ∃ (Q : Quant Unit) (s : DocState) (c1 c2 : Composite Unit),
+    Q.Lawful ∧ s.dirty = true ∧ Supported s.info.header ∧
+    s.info.header.cmode.expected ≤ s.info.header.channels ∧ c1.WF s.info.header ∧ c2.WF s.info.header :=
+  ⟨{ enc := fun d _ => List.replicate (d / 8) 0, flat := fun _ _ => (), one := () },
+   { info := { header := { cmode := .rgb, channels := 3, depth := 8, width := 1, height := 1 } },
+     imageData := { comp := .zip, payload := [] }, dirty := true },
+   { color := [[()], [()], [()]], alpha := [()] }, { color := [[()], [()], [()]], alpha := [()] },
+   by intro d x; simp, rfl, by unfold Supported; decide, by decide, by unfold Composite.WF; decide,
+   by unfold Composite.WF; decide⟩
+
+/-- The second file really depends on the second composite: a 1×1 grayscale document, one byte
+per sample; the layers render 10 at the first save and 20 at the second (say, after an opacity
+edit) — the second file holds 20. (With a `save()` that reset the flag it would hold 10.) -/
+theorem second_save_uses_second_composite :
+    let Q : Quant Nat := { enc := fun _ x => [UInt8.ofNat x], flat := fun c _ => c, one := 255 }
+    let s : DocState := { info := { header := { cmode := .gray, channels := 1, depth := 8, width := 1, height := 1 },
+                                    layerCount := 1 },
+                          imageData := { comp := .raw, payload := [0] }, dirty := true }
+    (runEvents Q s [.save ⟨[[10]], [255]⟩, .op .setOpacity, .save ⟨[[20]], [255]⟩]).map (·.imageData.payload)
+      = .ok [20] ∧
+    (runEvents Q s [.save ⟨[[10]], [255]⟩]).map (·.imageData.payload) = .ok [10] := by decide
+
 end
 
 /-- `ImageData.get_data` succeeds on whatever `set_data` stored under the same header — for
